@@ -85,12 +85,15 @@ KIND_ACTIONS = {
 
 class TapClient(LoopClient):
     tap: list = []
+    inject = None      # callable(rec): runs while the message is handed over and its exchange has not started yet
 
     def post_message_to(self, path, created_message, msg='', request_manipulator=None, validate=True):
         hib = created_message.p_msg.header_info_block
         rec = {'netloc': self._netloc, 'path': path, 'action': str(hib.Action), 'to': hib.To,
                'refp': [(r.tag, r.text) for r in (hib.reference_parameters or [])], 'ok': None}
         TapClient.tap.append(rec)
+        if TapClient.inject is not None:
+            TapClient.inject(rec)      # other threads' operations, while the manager is blocked in this delivery
         try:
             r = super().post_message_to(path, created_message, msg=msg, request_manipulator=request_manipulator,
                                         validate=validate)
@@ -168,6 +171,7 @@ class Driver:
             smb.SubscriptionBase.MAX_NOTIFY_ERRORS = case['max_err']
         FT.now = 1000.0
         TapClient.tap = []
+        TapClient.inject = None
         maxd = case.get('maxd')
         self.w = World(max_subscription_duration=(0 if maxd is None else maxd / self.unit),   # 0 -> `or DEFAULT`
                        async_subscriptions=is_async)
@@ -207,6 +211,17 @@ class Driver:
                 rec[2:] = [len(TapClient.tap), self.table_view(), self.pool_view()]
 
         self.mgr.send_to_subscribers = tapped_send
+        self.fan = None              # bookkeeping of the fine-grained report in progress (op_freport)
+        self.cur_outs = []
+        _orig_get = self.mgr._get_subscriptions_for_action
+
+        def tapped_get(action):      # the receiver list of a fan-out, in the order of the delivery loop
+            res = _orig_get(action)
+            if self.fan is not None and not self.fan['busy'] and self.fan['order'] is None:
+                self.fan['order'] = [self.k_of_sub(s) for s in res]
+            return res
+
+        self.mgr._get_subscriptions_for_action = tapped_get
 
     # ------------------------------------------------------------------ helpers
     def sec(self, v):
@@ -318,7 +333,10 @@ class Driver:
         return d
 
     def set_hook(self, outs):
+        self.cur_outs = outs
+
         def hook(ex):
+            outs = self.cur_outs
             i = self.sink_of.get(ex.netloc)
             if i is None or i >= len(outs):
                 return None
@@ -543,6 +561,113 @@ class Driver:
                                           tap[t0:], action=self.act_tok(a)))
         return entries
 
+    def direct_report(self, tok, send):
+        report = self.mdib.data_model.msg_types.EpisodicMetricReport()
+        report.set_mdib_version_group(self.mdib.mdib_version_group)
+        send(report, self.tok_str(tok), self.mdib.mdib_version_group)
+
+    def inner_op(self, op):
+        """one operation of another thread, performed while a delivery of the fan-out is in progress"""
+        t0 = len(TapClient.tap)
+        try:
+            if op[0] == 'sub':
+                ent = self.op_sub(op[1])
+            elif op[0] in ('renew', 'status', 'unsub'):
+                ent = self.op_request(op[0], op[1], op[2] if op[0] == 'renew' else None,
+                                      via_cons=op[-1] if isinstance(op[-1], bool) else True)
+            elif op[0] == 'adv':
+                FT.now += self.sec(op[1])
+                ent = {'resp': ['none']}
+            elif op[0] == 'hk':
+                ent = self.op_hk()
+            elif op[0] == 'report':            # another sender's report (atomic), own delivery outcomes
+                saved = self.cur_outs
+                self.cur_outs = op[2]
+                try:
+                    self.direct_report(op[1][1], self._orig_send)
+                finally:
+                    self.cur_outs = saved
+                ent = {'resp': ['none'], 'action': op[1][1]}
+            else:
+                raise ValueError(op[0])
+        except Exception:  # noqa: BLE001
+            ent = {'resp': ['crash', traceback.format_exc()[-600:]]}
+        return {'op': op, 'resp': ent['resp'], 'cons': ent.get('cons'), 'handed': self.handed(TapClient.tap[t0:])}
+
+    def op_freport(self, what, outs, inject):
+        """a report whose fan-out is interleaved with operations of other threads: inject = {n: [op, ...]} are
+        performed (by a second thread, joined) from inside the delivery of the n-th hand-off of this report, i.e.
+        after the manager handed the message to the subscriber's client and before the exchange happens.
+        Operations that need the subscription table's lock while the manager holds it (async managers do, for the
+        whole fan-out) wait: they are performed when the report is through."""
+        self.set_hook(outs)
+        self.sends = []
+        t0 = len(TapClient.tap)
+        lock = self.mgr._subscriptions.lock
+        fan = self.fan = {'order': None, 'events': [], 'busy': False, 'waiting': [], 'blocked': False}
+
+        def others(ops, ev):
+            for op in ops:
+                if op[0] != 'adv':
+                    if lock.acquire(blocking=False):
+                        lock.release()
+                    else:
+                        fan['waiting'].append(op)
+                        ev['waiting'] += 1
+                        continue
+                ev['inner'].append(self.inner_op(op))
+
+        def inj(rec):
+            if fan['busy'] or rec['action'] == EventingActions.SubscriptionEnd:
+                return          # a hand-off of a nested report
+            n = len(fan['events'])
+            ev = {'rec': rec, 'inner': [], 'waiting': 0}
+            fan['events'].append(ev)
+            ops = inject.get(str(n))
+            if ops and not fan['blocked']:
+                fan['busy'] = True
+                thr = threading.Thread(target=others, args=(ops, ev), name='verif-other-threads', daemon=True)
+                thr.start()
+                thr.join(60)
+                if thr.is_alive():
+                    fan['blocked'] = True
+                fan['busy'] = False
+
+        crash = None
+        TapClient.inject = inj
+        try:
+            if what[0] == 'kind':
+                self.tx(what[1])
+                expect = KIND_ACTIONS[what[1]][0].value
+            else:
+                self.direct_report(what[1], self.mgr.send_to_subscribers)
+                expect = self.tok_str(what[1])
+        except Exception as exc:  # noqa: BLE001
+            crash = f'{type(exc).__name__}: {exc}'[:300]
+            expect = KIND_ACTIONS[what[1]][0].value if what[0] == 'kind' else self.tok_str(what[1])
+        finally:
+            TapClient.inject = None
+        self.fan = None
+        if fan['blocked']:
+            crash = 'operations of a second thread did not return within 60 s (dead-lock with the fan-out)'
+        got = [r[1] for r in self.sends]
+        if crash is None and got != [expect]:
+            crash = f'send_to_subscribers calls {got} != {[expect]}'
+        waited = [self.inner_op(op) for op in fan['waiting']] if not fan['blocked'] else []
+        self.w.net.hook = None
+        events = []
+        for ev in fan['events']:
+            h = self.handed([ev['rec']])[0]
+            h['inner'] = ev['inner']
+            h['waiting'] = ev['waiting']
+            events.append(h)
+        outer = [ev['rec'] for ev in fan['events']]
+        ent = self.entry(['none'] if crash is None else ['crash', crash], outer, action=self.act_tok(expect),
+                         fan={'order': fan['order'], 'events': events, 'waited': waited})
+        if crash is not None:
+            ent['handed'] = self.handed(TapClient.tap[t0:])
+        return ent
+
     def op_hk(self):
         def once():
             self.mgr._run_housekeeping_thread = False
@@ -584,6 +709,8 @@ class Driver:
                     out.append(self.entry(['none'], []))
                 elif op[0] == 'report':
                     out.extend(self.op_report(op[1], op[2]))
+                elif op[0] == 'freport':
+                    out.append(self.op_freport(op[1], op[2], op[3]))
                 elif op[0] == 'hk':
                     out.append(self.op_hk())
                 elif op[0] == 'stop':
@@ -592,12 +719,13 @@ class Driver:
                     raise ValueError(op[0])
             except Exception:  # noqa: BLE001
                 out.append({'resp': ['crash', traceback.format_exc()[-600:]], 'handed': [], 'table': [], 'pool': []})
-            if op[0] not in ('report', 'stop') and len(TapClient.tap) != t0:
+            if op[0] not in ('report', 'freport', 'stop') and len(TapClient.tap) != t0:
                 out[-1]['handed'] = self.handed(TapClient.tap[t0:])     # nothing may be sent by other ops
         return out
 
     def close(self):
         self.w.net.hook = None
+        TapClient.inject = None
         if not self.stopped:
             try:
                 self.prov.stop_all(send_subscription_end=False)
